@@ -3,6 +3,7 @@
 use crate::{
     compile::{Compile, CompileState},
     context::compile_context,
+    freshen::freshen_shadowing_binders,
     types::compile_ty,
 };
 use core_lang::syntax::{CodataDeclaration, names::Identifier};
@@ -29,6 +30,8 @@ pub fn compile_def(
     codata_types: &'_ [CodataDeclaration],
     used_labels: &mut HashSet<Name>,
 ) -> VecDeque<core_lang::syntax::Def> {
+    // binders shadowing a name in scope could capture this name in a continuation
+    let def = freshen_shadowing_binders(def);
     let mut used_vars = def.context.vars();
 
     let mut context = compile_context(def.context);
@@ -90,6 +93,8 @@ pub fn compile_main(
     codata_types: &'_ [CodataDeclaration],
     used_labels: &mut HashSet<Name>,
 ) -> VecDeque<core_lang::syntax::Def> {
+    // binders shadowing a name in scope could capture this name in a continuation
+    let def = freshen_shadowing_binders(def);
     let mut used_vars = def.context.vars();
     let context = compile_context(def.context);
 
